@@ -162,6 +162,7 @@ theorem inv_step (ops : PriceOps P) (m : Market P) (o : Op P) (h : Inv m) (hv : 
   | tick f => exact inv_tick ops m f h
   | jump k f => exact inv_setTime ops m (k + 1) f h (by omega)
   | setRunning b => exact ⟨h.buys, h.sells, h.disj, h.past⟩
+  | setFund f => exact ⟨h.buys, h.sells, h.disj, h.past⟩
 
 /-- every state reachable from a state satisfying `Inv` by valid operations satisfies `Inv` -/
 theorem inv_runOps (ops : PriceOps P) (m : Market P) (os : List (Op P)) (h : Inv m)
